@@ -173,14 +173,15 @@ def _latch(R, P, u):
         for flags in ((False, False), (True, False), (False, True), (True, True)):
             if meth == "header" and flags[1]:
                 continue
-            vals = {"fmt": RefV(Cell(TOP, "fmt"), (), True), "result": fdai.mk_err(SymV("first-error", "first-error")), "has_header": K(flags[0]), "has_data": K(flags[1])}
-            ucell = Cell(AggV(ru_adt, {i: vals.get(n, TOP) for i, n in enumerate(fields)}), "unit")
+            from . import emit as E_
+            ri_ = E_.unit_layout(u)[1]
+            ucell = Cell(E_.mk_unit(u, E_.unit_states(P)[flags], result=fdai.mk_err(SymV("first-error", "first-error"))), "unit")
             res = eng.run(b, [RefV(ucell, (), True), SymV("payload", "payload")])
             for r in res:
                 writes = [e.name for e in r.trace if e.kind == "call" and ("Formatter::" in e.name or "format_response_data" in e.name)]
                 rv = r.retval
                 final = load(Loc(rv.cell, rv.path)) if isinstance(rv, RefV) else None
-                fres = final.fields.get(fields.index("result")) if isinstance(final, AggV) else None
+                fres = final.fields.get(ri_) if isinstance(final, AggV) else None
                 keep = isinstance(fres, EnumV) and fres.name == "Err" and isinstance(fres.fields.get(0), SymV) and fres.fields[0].id == "first-error"
                 R.check(not writes and keep, "R11.3", "ResponseUnit::%s[after-error,%s]" % (meth, flags), "after a failed write nothing more is written and the failure is kept", "after a failed write (e.g. -225) ResponseUnit::%s still writes %s / replaces the stored error by %r: a later, shorter datum would turn the failure into a truncated success" % (meth, writes, fres), where=b.span)
 
@@ -217,8 +218,8 @@ def _surface(R, P, u):
         for fail_at in [None] + list(range(0, 8)):
             if fail_at is not None and total is not None and fail_at >= total:
                 break
-            vals = {"fmt": RefV(Cell(TOP, "fmt"), (), True), "result": fdai.mk_ok(fdai.UNIT), "has_header": K(False), "has_data": K(False)}
-            ucell = Cell(AggV(ru_adt, {i: vals.get(n, TOP) for i, n in enumerate(fields)}), "unit")
+            from . import emit as E_
+            ucell = Cell(E_.mk_unit(u, E_.unit_states(P)[(False, False)]), "unit")
             st_extra = {"writes": 0, "fail_at": fail_at}
             ok_run = True
             res = None
